@@ -2,4 +2,4 @@ From Coq Require Import Extraction ExtrOcamlBasic ZArith QArith List.
 From MV Require Import Gen.BoolConsts Geo.KernelDefs Geo.FloodDefs.
 Extraction Language OCaml.
 Extraction "../build/ml/c02k_model.ml" shadow01_g kernel02_g kernel11_g kernel12_g w03_sum_g gen_shadowsQ
-  face_edges hend unbroken_edges winding03 uf_build uf_unite uf_init uf_find Qred.
+  face_edges hend unbroken_edges winding03 uf_build uf_unite uf_init uf_find closed_meshb Qred.
